@@ -118,11 +118,13 @@ def inheritance_scenario(rng):
     # _mk drops keyword arguments the class does not declare
     main += "def _mk(cls, kw):\n    names = {f.name for f in dataclasses.fields(cls)}\n    return cls(**{k: v for k, v in kw.items() if k in names})\n"
     root = rng.choice(["Box"] + names)
-    if root == "Box":
-        value = "Box(" + ", ".join(src(*inst(cn)) for cn in names) + ", [" + src(*inst(names[-1])) + "])"
-    else:
-        value = src(*inst(root))
-    return dict(mods={}, main=main, type=root, values=[value], mixin=mixin, name="inheritance", shape=f"{root}/depth{depth}")
+    values = []
+    for _ in range(3):
+        if root == "Box":
+            values.append("Box(" + ", ".join(src(*inst(cn)) for cn in names) + ", [" + src(*inst(names[-1])) + "])")
+        else:
+            values.append(src(*inst(root)))
+    return dict(mods={}, main=main, type=root, values=values, mixin=mixin, name="inheritance", shape=f"{root}/depth{depth}")
 
 
 SCENARIOS = [generic_scenario, generic_scenario, inheritance_scenario]
